@@ -284,3 +284,31 @@ Theorem C13_capstone_map_head : forall gens inputs internal dump_sub par inproc 
     (C13Map.map_run gens inputs internal dump_sub par inproc tgt e) = true.
 Proof. exact C13MapCap.map_capstone_head. Qed.
 Print Assumptions C13_capstone_map_head.
+
+(* ================================================================== executor path: every schedule *)
+(* The model executes the tasks of a generation in submission order.  That choice is immaterial: for EVERY order in
+   which an executor runs them, each task has the same outcome (it depends on the task alone: its kwargs were fixed at
+   submission from the results of earlier generations, and it writes only to the stores of its own function), the
+   call log is a permutation, and the failure that _process_generation reports -- the first failing task in
+   SUBMISSION order -- is the same.  Together with C13_error_surfaces_map this is error_surfaces for the executor
+   path under every schedule (the library-error alternative remains: excluding it needs "a valid request never makes
+   the library's own machinery fail", which is C01's business, not proved for this model). *)
+From Verif Require Proofs.FailingSchedFacts.
+
+Theorem C13_every_schedule : forall ubody dump_sub ts ts' st st1 rs st1' rs',
+  Permutation.Permutation ts ts' ->
+  FailingMap.exec_tasks ubody dump_sub false ts st = (st1, rs) ->
+  FailingMap.exec_tasks ubody dump_sub false ts' st = (st1', rs') ->
+  Permutation.Permutation rs rs'
+  /\ Permutation.Permutation (FailingMap.m_log st1) (FailingMap.m_log st1')
+  /\ (forall t, In t ts -> forall r, In (t, r) rs' -> r = FailingSchedFacts.outcome_of ubody dump_sub st t)
+  /\ rs = map (fun t => (t, FailingSchedFacts.outcome_of ubody dump_sub st t)) ts.
+Proof. exact FailingSchedFacts.exec_tasks_every_schedule. Qed.
+Print Assumptions C13_every_schedule.
+
+Theorem C13_reported_failure_schedule_free : forall ubody dump_sub ts st st1 rs,
+  FailingMap.exec_tasks ubody dump_sub false ts st = (st1, rs) ->
+  FailingMap.first_fail rs
+  = FailingSchedFacts.first_fail_in ts (FailingSchedFacts.outcome_of ubody dump_sub st).
+Proof. exact FailingSchedFacts.reported_failure_schedule_free. Qed.
+Print Assumptions C13_reported_failure_schedule_free.
